@@ -336,7 +336,7 @@ class Output(object):
         # Loop over rows
         for i in range(len(x)):
             line = ""
-            line += ','.join(str(descs[k][i]) for k in descs)
+            line += ','.join(str(descs[k][i]) if descs[k] is not None else "All" for k in descs)
             for f in range(y.shape[1]):
                 line = line + ',%g' % y[i, f]
             s += line + "\n"
